@@ -8,6 +8,7 @@ CONSTANTS
   MaxPert = 0
   Rounds = 14
   OwnConds <- OCAll
+  Presets <- BNo
   GenSels <- BNo
   ScaleRevs <- BNo
 INVARIANTS C07_OneMove C07_HookOrder C07_Gate C07_OldStay C07_NonRevNow C08_Linear C07_StuckWaits
